@@ -78,11 +78,12 @@ def run_property(pid, tier, repo, replay=None, quiet=False):
                     "no longer sees the code it is meant to check" % (r.rule, r.n, floor))
         # positive controls
         controls = []
+        dead_controls = []
         for ctl in spec.get("controls", []):
             name, fired, detail = ctl(ctx)
             controls.append({"control": name, "fired": bool(fired), "detail": detail})
             if not fired:
-                raise AnalysisError("positive control %s did not fire: %s" % (name, detail))
+                dead_controls.append("positive control %s did not fire: %s" % (name, detail))
         adequacy = None
         if tier == "thorough" and spec.get("adequacy"):
             adequacy = spec["adequacy"](ctx)
@@ -109,6 +110,12 @@ def run_property(pid, tier, repo, replay=None, quiet=False):
                 known.append((f, e))
             else:
                 violations.append(f)
+    if dead_controls and not violations:
+        # a control that cannot produce a *new* finding because the rule already reports the
+        # tree itself is not a dead control: unlisted violations win, like with the floors
+        print("\n".join(out))
+        print("ANALYSIS-ERROR property=%s %s" % (pid, dead_controls[0]))
+        return 2
     if replay:
         want = json.load(open(replay)).get("key")
         violations = [f for f in violations if list(f.key) == want]
